@@ -34,12 +34,13 @@ Definition hmax_after (hmax : N) (bs : list block) : N :=
    processed since then (ghost) *)
 Inductive reach : state -> list block -> N -> Prop :=
 | reach_init : reach init [] 0
-| reach_add s C hm c : reach s C hm -> reach (fst (step s (AddContract c))) C hm
+| reach_config s C hm rb : reach s C hm -> reach (fst (step s (Configure rb))) C hm
+| reach_add s C hm c ng : reach s C hm -> reach (fst (step s (AddContract c ng))) C hm
 | reach_batch s C hm rs bs s' :
     reach s C hm -> wf_batch C rs bs -> batch s rs bs = Ok s' ->
     reach s' (chain_after C rs bs) (hmax_after hm bs)
 | reach_reset s C hm : reach s C hm -> reach (reset s) [] 0
-| reach_renew s C hm c r : reach s C hm -> reach (fst (step s (Renew c r))) C hm.
+| reach_renew s C hm c r ng : reach s C hm -> reach (fst (step s (Renew c r ng))) C hm.
 
 Lemma idx_eqb_eq a b : idx_eqb a b = true <-> a = b.
 Proof.
@@ -247,7 +248,7 @@ Lemma apply_block_shape s b s' : apply_block s b = Ok s' ->
   exists s1, fold_res (apply_event b) (grouped (b_events b)) s = Ok s1 /\
     celems s' = cupd_apply b (celems s1) /\
     ielems s' = expire (ih (b_idx b)) (iset (new_iel b) (iupd_apply b (ielems s1))) /\
-    tip s' = tip s1 /\ contracts s' = contracts s1.
+    tip s' = tip s1 /\ contracts s' = reject_rows (rbuf s1) (ih (b_idx b)) (negs s1) (contracts s1).
 Proof.
   unfold apply_block, apply_block_g. destruct (fold_res (apply_event b) (grouped (b_events b)) s) as [s1| |]; cbn [bind]; try discriminate.
   rewrite (crefresh_apply_full sel_all _ _ b (celems s1) (fun e _ => row_sel_all _ _ e)).
@@ -373,8 +374,8 @@ Lemma batch_phases s rs bs s' : batch s rs bs = Ok s' -> (rs <> [] \/ bs <> []) 
 Proof.
   intros H Hne. unfold batch, batch_g in H.
   assert ((do s1 <- fold_res revert_block rs s; do s2 <- fold_res apply_block bs s1;
-           Ok {| contracts := contracts s2; renewed := renewed s2; celems := celems s2; ielems := ielems s2;
-                 tip := last_idx rs bs (tip s2) |}) = Ok s') as H'.
+           Ok {| contracts := contracts s2; renewed := renewed s2; negs := negs s2; rbuf := rbuf s2;
+                 celems := celems s2; ielems := ielems s2; tip := last_idx rs bs (tip s2) |}) = Ok s') as H'.
   { destruct rs, bs; try exact H. destruct Hne as [X|X]; congruence. }
   clear H. destruct (fold_res revert_block rs s) as [s1| |] eqn:H1; cbn [bind] in H'; try discriminate.
   destruct (fold_res apply_block bs s1) as [s2| |] eqn:H2; cbn [bind] in H'; try discriminate.
@@ -445,7 +446,7 @@ Qed.
 Definition rinv (s : state) (C : list block) : Prop := linked C /\ el_inv s C /\ tip_ok s C.
 
 (* RenewV2Contract touches neither element table nor the tip marker *)
-Lemma renew_fields s c r : let s' := fst (step s (Renew c r)) in
+Lemma renew_fields s c r ng : let s' := fst (step s (Renew c r ng)) in
   celems s' = celems s /\ ielems s' = ielems s /\ tip s' = tip s.
 Proof.
   unfold step; cbn [step_g]. unfold renew. destruct (known s c && negb (known s r)); cbn; auto.
@@ -453,14 +454,15 @@ Qed.
 
 Lemma reach_rinv s C hm : reach s C hm -> rinv s C.
 Proof.
-  induction 1 as [|s C hm c R IH|s C hm rs bs s' R IH F H|s C hm R IH|s C hm c r R IH].
+  induction 1 as [|s C hm rb R IH|s C hm c ng R IH|s C hm rs bs s' R IH F H|s C hm R IH|s C hm c r ng R IH].
   - repeat split; cbn; auto.
+  - destruct IH as [L [E T]]. unfold step; cbn [step_g fst]. repeat split; auto.
   - destruct IH as [L [E T]]. unfold step; cbn [step_g]. destruct (known s c); cbn [fst]; repeat split; auto.
   - destruct IH as [L [E T]]. split; [exact (proj2 F)|]. split.
     + exact (el_inv_batch s C rs bs s' E L F H).
     + exact (tip_ok_batch s C rs bs s' L T F H).
   - repeat split; cbn; auto.
-  - destruct IH as [L [E T]]. destruct (renew_fields s c r) as [A [B D]]. split; [exact L|]. split.
+  - destruct IH as [L [E T]]. destruct (renew_fields s c r ng) as [A [B D]]. split; [exact L|]. split.
     + exact (el_inv_ext s _ C E A B).
     + unfold tip_ok in *. destruct C; [exact I|]. rewrite D. exact T.
 Qed.
@@ -620,12 +622,13 @@ Qed.
 
 Lemma reach_jinv s C hm : reach s C hm -> jinv s C hm.
 Proof.
-  induction 1 as [|s C hm c R IH|s C hm rs bs s' R IH F H|s C hm R IH|s C hm c r R IH].
+  induction 1 as [|s C hm rb R IH|s C hm c ng R IH|s C hm rs bs s' R IH F H|s C hm R IH|s C hm c r ng R IH].
   - repeat split; cbn; intros; try contradiction.
+  - exact (jinv_ext s _ C hm IH eq_refl).
   - unfold step; cbn [step_g]. destruct (known s c); cbn [fst]; [exact IH|]. exact (jinv_ext s _ C hm IH eq_refl).
   - exact (jinv_batch s C hm rs bs s' IH (proj1 (reach_rinv s C hm R)) F H).
   - repeat split; cbn; intros; try contradiction.
-  - exact (jinv_ext s _ C hm IH (proj1 (proj2 (renew_fields s c r)))).
+  - exact (jinv_ext s _ C hm IH (proj1 (proj2 (renew_fields s c r ng)))).
 Qed.
 
 (* the stored chain indices: on the processed best chain, inside the retention window, and complete
@@ -647,8 +650,9 @@ Qed.
 Fixpoint wf_ops (s : state) (C : list block) (l : list op) : Prop :=
   match l with
   | [] => True
-  | AddContract c :: t => wf_ops (fst (step s (AddContract c))) C t
-  | Renew c r :: t => wf_ops (fst (step s (Renew c r))) C t
+  | Configure rb :: t => wf_ops (fst (step s (Configure rb))) C t
+  | AddContract c ng :: t => wf_ops (fst (step s (AddContract c ng))) C t
+  | Renew c r ng :: t => wf_ops (fst (step s (Renew c r ng))) C t
   | Batch rs bs :: t =>
       match batch s rs bs with
       | Ok s' => wf_batch C rs bs /\ wf_ops s' (chain_after C rs bs) t
@@ -661,8 +665,9 @@ Fixpoint wf_ops (s : state) (C : list block) (l : list op) : Prop :=
 Fixpoint ghost (s : state) (C : list block) (hm : N) (l : list op) : list block * N :=
   match l with
   | [] => (C, hm)
-  | AddContract c :: t => ghost (fst (step s (AddContract c))) C hm t
-  | Renew c r :: t => ghost (fst (step s (Renew c r))) C hm t
+  | Configure rb :: t => ghost (fst (step s (Configure rb))) C hm t
+  | AddContract c ng :: t => ghost (fst (step s (AddContract c ng))) C hm t
+  | Renew c r ng :: t => ghost (fst (step s (Renew c r ng))) C hm t
   | Batch rs bs :: t =>
       match batch s rs bs with
       | Ok s' => ghost s' (chain_after C rs bs) (hmax_after hm bs) t
@@ -678,7 +683,8 @@ Lemma runs_reach : forall l s C hm, reach s C hm -> wf_ops s C l ->
   reach (runs s l) (fst (ghost s C hm l)) (snd (ghost s C hm l)).
 Proof.
   induction l as [|o t IH]; intros s C hm R W; [exact R|].
-  destruct o as [c|c r|rs bs| |]; cbn [wf_ops ghost] in *; unfold runs; cbn [fold_left].
+  destruct o as [rb|c ng|c r ng|rs bs| |]; cbn [wf_ops ghost] in *; unfold runs; cbn [fold_left].
+  - apply IH; [|exact W]. apply reach_config. exact R.
   - apply IH; [|exact W]. apply reach_add. exact R.
   - apply IH; [|exact W]. apply reach_renew. exact R.
   - unfold step at 2; cbn [step_g]. fold (batch s rs bs). destruct (batch s rs bs) as [s'| |] eqn:E; cbn [fst].
@@ -696,7 +702,7 @@ Definition wb0 : block := {| b_idx := ix 0 1; b_parent := ix 0 0; b_events := []
 Definition wb1 : block := {| b_idx := ix 1 2; b_parent := ix 0 1; b_events := [EFormed 1 0] |}.
 Definition wb2 : block := {| b_idx := ix 2 3; b_parent := ix 1 2; b_events := [ERevised 1 0 2] |}.
 Definition wb1' : block := {| b_idx := ix 1 4; b_parent := ix 0 1; b_events := [] |}.
-Definition wit_ops1 : list op := [AddContract 1; Batch [] [wb0; wb1; wb2]].
+Definition wit_ops1 : list op := [AddContract 1 0; Batch [] [wb0; wb1; wb2]].
 Definition wit_ops : list op := wit_ops1 ++ [Batch [wb2; wb1] [wb1']].
 
 Ltac wit_solve :=
@@ -706,7 +712,7 @@ Ltac wit_solve :=
 Lemma wit_wf : wf_ops init [] wit_ops.
 Proof.
   cbn [wit_ops wit_ops1 app wf_ops].
-  set (s0 := fst (step init (AddContract 1))).
+  set (s0 := fst (step init (AddContract 1 0))).
   assert (batch s0 [] [wb0; wb1; wb2] = Ok (runs s0 [Batch [] [wb0; wb1; wb2]])) as E1 by (vm_compute; reflexivity).
   rewrite E1. split.
   { split; [reflexivity|]. wit_solve. }
@@ -719,13 +725,13 @@ Qed.
 Lemma nonvacuous_witness :
   reach (runs init wit_ops1) [wb2; wb1; wb0] 2 /\
   snd (step (runs init wit_ops1) Observe) =
-    OState [(1%N, true, 2%N)] [(ix 0 1, true); (ix 1 2, true); (ix 2 3, true)] (Some (ix 2 3)) [] /\
+    OState [(1%N, true, 2%N)] [(ix 0 1, true); (ix 1 2, true); (ix 2 3, true)] (Some (ix 2 3)) [] [(1%N, SActive)] /\
   reach (runs init wit_ops) [wb1'; wb0] 2 /\
-  snd (step (runs init wit_ops) Observe) = OState [] [(ix 0 1, true); (ix 1 4, true)] (Some (ix 1 4)) [].
+  snd (step (runs init wit_ops) Observe) = OState [] [(ix 0 1, true); (ix 1 4, true)] (Some (ix 1 4)) [] [(1%N, SUnconfirmed)].
 Proof.
   assert (wf_ops init [] wit_ops1) as W1.
   { pose proof wit_wf as W. cbn [wit_ops wit_ops1 app wf_ops] in *.
-    destruct (batch (fst (step init (AddContract 1))) [] [wb0; wb1; wb2]) as [s'| |] eqn:E; [|vm_compute in E; discriminate|vm_compute in E; discriminate].
+    destruct (batch (fst (step init (AddContract 1 0))) [] [wb0; wb1; wb2]) as [s'| |] eqn:E; [|vm_compute in E; discriminate|vm_compute in E; discriminate].
     split; [tauto|exact I]. }
   split; [|split; [vm_compute; reflexivity|split; [|vm_compute; reflexivity]]].
   - exact (runs_reach wit_ops1 init [] 0%N reach_init W1).
